@@ -73,6 +73,10 @@ def run(pid, mod, rep, base_programs, only=None):
             from . import templates
             templates.PROG[0] = prog
             mod.check(scratch, prog, 'selftest')
+            if hasattr(mod, 'finish'):
+                vp = dict(base_programs)
+                vp[config] = prog
+                mod.finish(scratch, 'selftest', vp)
         except compdb.AnalysisBroken as e:
             scratch.unresolved('analysis', str(e))
         hit = [x for x in scratch.violations if x['rule'] == v['rule'] and (not v.get('expect') or v['expect'] in (str(x['instance']) + ' ' + str(x['detail']) + ' ' + str(x['key'])))]
